@@ -148,7 +148,9 @@ func frames(b []byte) [][]string {
 
 func (s *c14Sys) Apply(e clustermc.Ev) []clustermc.Fail {
 	var fs []clustermc.Fail
-	add := func(k, f string, a ...interface{}) { fs = append(fs, clustermc.Fail{Key: k, What: fmt.Sprintf(f, a...)}) }
+	add := func(k, f string, a ...interface{}) {
+		fs = append(fs, clustermc.Fail{Key: k, What: fmt.Sprintf(f, a...)})
+	}
 	switch e.K {
 	case "sub", "psub", "unsub", "punsub", "unsuball", "punsuball":
 		c := s.Conns[e.A]
@@ -309,7 +311,9 @@ func ask(m *simcluster.Member, args ...string) []string {
 // Check: PUBSUB CHANNELS / NUMSUB / NUMPAT on every member against the model.
 func (s *c14Sys) Check() []clustermc.Fail {
 	var fs []clustermc.Fail
-	add := func(k, f string, a ...interface{}) { fs = append(fs, clustermc.Fail{Key: k, What: fmt.Sprintf(f, a...)}) }
+	add := func(k, f string, a ...interface{}) {
+		fs = append(fs, clustermc.Fail{Key: k, What: fmt.Sprintf(f, a...)})
+	}
 	for mi, m := range s.Cl.Members {
 		chans := map[string]int{} // channel -> number of connections subscribed to it on this member
 		pats := map[string]bool{}
